@@ -178,3 +178,15 @@ P('C11', 'other',
   'accepted iff > 0 (values -1, 0, 0.5, 1, 3), NaN price refused before the division. Not decided: the gross-exposure bound and "largest '
   'affordable within one currency unit" (numeric consequences).')
 TECHNIQUE['C11'] = 'static analysis: canonical formula-slot matching, sign-domain decision table of the truncation branches, guard tables'
+
+P('C17', 'other',
+  'Static rules on qstrader.statistics. S1 R-RECUR-BASE: the high-water-mark recurrence over range(1, n) has its base element assigned '
+  'from the first observation before the loop (or a cumulative-maximum primitive is used) and absorbs the observation of the same index. '
+  'S2 formula slots by canonical arithmetic: drawdown = (hwm - x)/hwm, maximum = max of that series, duration = longest run of the '
+  'indicator "drawdown != 0" of that same series; CAGR = last^(periods/len) - 1; Sharpe = sqrt(periods) mean/std with default ddof; Sortino '
+  'the same over strictly negative returns. S3 provenance: returns = pct_change of the equity column (degree-0 homogeneous, hence scale '
+  'free), cumulative returns compound them, and every perf.* call in the reporters receives the series its definition names. S4 the JSON '
+  'export and the tearsheet derive returns/cumulative returns by identical expressions, pass the configured periods, and keep no cache on '
+  'the reporter. S5 every aggregate applies exp(sum(log(1+r)))-1 to a groupby partition of the given returns. Not decided: numerical equality '
+  'with the definitions for all curves; pandas groupby semantics.')
+TECHNIQUE['C17'] = 'static analysis: recurrence base-case rule, canonical formula-slot matching, provenance of the series passed to each statistic, sibling agreement of the reporters'
